@@ -4,3 +4,4 @@ pub mod matchw;
 pub mod windows;
 pub mod tok;
 pub mod batch;
+pub mod multigen;
